@@ -122,7 +122,7 @@ def _unescape(s):
 
 
 def tlc(module, cfg=None, trace=None, env=None, workers=1, deque=False, timeout=1800, xmx="3g",
-        extra=None, tag=None, keep_stdout=False):
+        extra=None, tag=None, keep_stdout=False, stdout_path=None):
     """Runs TLC on spec/<module>.tla; returns dict with parsed outcome."""
     cfg = cfg or module
     tag = tag or ("%s-%d-%d" % (module, os.getpid(), int(time.time() * 1000) % 10 ** 9))
@@ -144,9 +144,16 @@ def tlc(module, cfg=None, trace=None, env=None, workers=1, deque=False, timeout=
     cmd.append(module + ".tla")
     t = time.time()
     try:
-        r = subprocess.run(cmd, cwd=SPEC, env=e, capture_output=True, text=True, timeout=timeout)
-        out = r.stdout
-        rc = r.returncode
+        if stdout_path:
+            with open(stdout_path, "w") as fo:
+                r = subprocess.run(cmd, cwd=SPEC, env=e, stdout=fo, stderr=subprocess.STDOUT, timeout=timeout)
+            rc = r.returncode
+            # only the bookkeeping lines are parsed here; payload lines stay in the file
+            out = subprocess.run(["grep", "-v", "-E", '^<<"(GEN)"', stdout_path], capture_output=True, text=True).stdout
+        else:
+            r = subprocess.run(cmd, cwd=SPEC, env=e, capture_output=True, text=True, timeout=timeout)
+            out = r.stdout
+            rc = r.returncode
     except subprocess.TimeoutExpired as ex:
         out = (ex.stdout or b"").decode("utf-8", "replace") if isinstance(ex.stdout, bytes) else (ex.stdout or "")
         rc = -9
